@@ -29,8 +29,10 @@ def step (st : St) (f : List String) : St × String :=
     | ["fact", v, rw, ls, site] =>
       match v.toNat?, parseLocks ls with
       | some v, some ls =>
-        if rw == "r" then (some (fs ++ [⟨v, false, ls, site⟩]), "ok")
-        else if rw == "w" then (some (fs ++ [⟨v, true, ls, site⟩]), "ok")
+        if rw == "r" then (some (fs ++ [⟨v, false, 0, ls, site⟩]), "ok")
+        else if rw == "u" then (some (fs ++ [⟨v, true, 1, ls, site⟩]), "ok")
+        else if rw == "w" then (some (fs ++ [⟨v, true, 2, ls, site⟩]), "ok")
+        else if rw == "x" then (some (fs ++ [⟨v, true, 3, ls, site⟩]), "ok")
         else (st, "bad-op")
       | _, _ => (st, "bad-op")
     | ["verdict", v] =>
@@ -45,6 +47,17 @@ def step (st : St) (f : List String) : St × String :=
       let bad := ((varsOf fs).filter fun v => (checkVar fs v).isNone).mergeSort (· ≤ ·)
       if bad.isEmpty then (st, "all-disciplined")
       else (st, bad.foldl (fun s v => s ++ " " ++ toString v) "undisciplined")
+    | ["updates"] =>
+      if noSplitB fs then (st, "updates-atomic")
+      else
+        let bad := (varsOf (fs.filter fun f => f.kind == 3)).mergeSort (· ≤ ·)
+        (st, bad.foldl (fun s v => s ++ " " ++ toString v) "split")
+    | ["counter", v] =>
+      match v.toNat? with
+      | none => (st, "bad-op")
+      | some v =>
+        if (factsOf fs v).isEmpty then (st, "novar")
+        else if isCounterB fs v then (st, "counter") else (st, "not-counter")
     | ["count"] => (st, toString fs.length)
     | _ => (st, "bad-op")
 
